@@ -20,12 +20,14 @@ import RoModel.Drivers.Create
 import RoModel.Drivers.More
 import RoModel.Drivers.Fault
 import RoModel.Drivers.Prom
+import RoModel.Drivers.Cut
 namespace Ro.Driver
 
 def handlers : List (String × (Case → String)) := [
   ("op", Drivers.Op.run),
   ("chain", Drivers.Chain.runChain),
   ("reuse", Drivers.Chain.runReuse),
+  ("reusemulti", Drivers.Chain.runReuseMulti),
   ("cancel", Drivers.Cancel.run),
   ("overlap", Drivers.Overlap.run),
   ("leak", Drivers.Cancel.runLeak),
@@ -44,7 +46,10 @@ def handlers : List (String × (Case → String)) := [
   ("tap", Drivers.More.runTap),
   ("pipe", Drivers.More.runPipe),
   ("fault", Drivers.Fault.run),
-  ("prom", Drivers.Prom.run)
+  ("prom", Drivers.Prom.run),
+  ("cutin", Drivers.Cut.runCutIn),
+  ("collect", Drivers.Cut.runCollect),
+  ("teardown", Drivers.Cut.runTeardown)
 ]
 
 def runCase (c : Case) : String :=
